@@ -88,12 +88,7 @@ impl PhysicalOptimizerRule for AggregateStatistics {
                 // input can be entirely removed
                 Ok(Arc::new(ProjectionExec::try_new(
                     projections,
-                    // The projection consists of literals only: the placeholder row
-                    // needs no columns (PlaceholderRowExec emits Null-typed columns
-                    // whatever schema it declares)
-                    Arc::new(PlaceholderRowExec::new(Arc::new(
-                        arrow::datatypes::Schema::empty(),
-                    ))),
+                    Arc::new(PlaceholderRowExec::new(plan.schema())),
                 )?))
             } else {
                 plan.map_children(|child| {
